@@ -236,7 +236,11 @@ class ClassicallyControlledOperation(raw_types.Operation):
             raise ValueError(
                 'QASM 2.0 does not support multiple conditions. Consider exporting with QASM 3.0.'
             )
-        subop_qasm = protocols.qasm(self._sub_operation, args=args)
+        subop_qasm = protocols.qasm(self._sub_operation, args=args, default=None)
+        if subop_qasm is None:
+            # No QASM form of its own: the writer decomposes this operation (every operation of
+            # the decomposition carries the conditions) and tries again.
+            return None
         if not self._conditions:
             return subop_qasm
         condition_qasm = " && ".join(protocols.qasm(c, args=args) for c in self._conditions)
